@@ -60,6 +60,9 @@ type mutexState struct {
 	locked  bool
 	readers int
 	owner   int
+	// writersWaiting: goroutines blocked in Lock. Like sync.RWMutex, a pending writer blocks NEW
+	// readers (so a recursive RLock with a writer arriving in between deadlocks, as in Go)
+	writersWaiting int
 }
 type onceSt struct {
 	done    bool
